@@ -57,13 +57,13 @@ class Ctx:
         self.extra: dict = {}
         self.deferred: list[str] = []
 
-    def call(self, fn, *args) -> None:
+    def call(self, fn, *args, **kwargs) -> None:
         """Run one rule; an analysis error of that rule is deferred so that the other rules still run.
 
         Deferred errors make the whole check exit 2 unless a violation was found (a violation is the more
         specific answer: typically the construct a rule anchors on was removed by the very change it reports)."""
         try:
-            fn(self, *args)
+            fn(self, *args, **kwargs)
         except AnalysisError as error:
             self.deferred.append(str(error))
 
